@@ -171,8 +171,8 @@ def run(chk, repo):
     chk.attempt(open_array, chk, repo)
     chk.attempt(r6_wiring, chk, repo, L, covered_by="open_array", rules=("C01-R6",))
     chk.attempt(load_rows, chk, repo)
-    chk.attempt(r7, chk, repo, covered_by="load_rows")
-    chk.attempt(r8, chk, repo, covered_by="load_rows")
+    chk.attempt(r7, chk, repo, covered_by="load_rows", rules=("C01-R7",))
+    chk.attempt(r8, chk, repo, covered_by="load_rows", rules=("C01-R8",))
     chk.count("functions", 20)
 
 
@@ -654,6 +654,12 @@ def r7(chk, repo):
     if a_ranges is None or a_size is None:
         raise AnalysisError(f"{where_pi}: arguments of compute_chunk_offsets not bound; not decided by the form rule")
     t_ranges, t_size = canon_self(pi, a_ranges, ali), canon_self(pi, a_size, ali)
+    # a local that is what gets stored as self.records_per_chunk (`self.records_per_chunk = n` with n assigned on every path before)
+    if isinstance(a_size, ast.Name) and a_size.id not in pi.params:
+        stored_from = [n for n in pi.own_nodes() if isinstance(n, ast.Assign) and any(norm(t) == "self.records_per_chunk" for t in n.targets) and isinstance(n.value, ast.Name) and n.value.id == a_size.id]
+        rebinds_after = [n for n in pi.own_nodes() if isinstance(n, ast.Assign) and any(isinstance(t, ast.Name) and t.id == a_size.id for t in n.targets) and stored_from and n.lineno > stored_from[-1].lineno]
+        if len(stored_from) == 1 and not rebinds_after and stored_from[0].lineno < last.lineno:
+            t_size = "self.records_per_chunk"
     rpc_stores = [n for n in pi.own_nodes() if isinstance(n, ast.Assign) and any(norm(t) == "self.records_per_chunk" for t in n.targets)]
     if t_ranges != "self.byte_ranges" and not is_access_path(a_ranges):
         raise AnalysisError(f"{where_pi}: the offsets table is computed from `{t_ranges}`; not decided by the form rule")
@@ -751,7 +757,7 @@ def r8(chk, repo):
         same, got, want = normal_form_equal(fi, spec)
         chk.require(same, "C01-R8", f"{io.relpath}:{name}", f"{name} == specification ({want[:90]})",
                     f"{name} computes {got[:160]} but the specification is {want[:160]}", key=f"spec:{name}")
-    chk.attempt(chunk_sizes_spec, chk, repo, covered_by="trace_positions")
+    chk.attempt(chunk_sizes_spec, chk, repo, covered_by="trace_positions", rules=("C01-R8",))
     # span components of compute_chunk_ranges
     cr = am.func("compute_chunk_ranges")
     ret = single_return(cr)
